@@ -15,6 +15,7 @@ GROUPS = {
     'tab': ['tab_step_2x3'],
     'span': ['span_text_total', 'span_reach_witness'],
     'idx': ['idx_read_empty_outer', 'idx_read_flat', 'idx_reach_witness'],
+    'util': ['util_remove_many_f64', 'util_reach_witness'],
 }
 STUBBING = {'span', 'idx'}   # groups whose harnesses use #[kani::stub] (listed in the evidence as stubs)
 
@@ -38,6 +39,7 @@ def functions_encoded(group):
         'stdk': ['float_{eq,ne,lt,gt,le,ge}', 'EqualityConstraint::new'],
         'tab': ['Tableau::step (find_h, find_t, pivot) from a symbolic canonical 2x3 tableau'],
         'span': ['InputSpan::span_text (alloc::fmt::format stubbed)'],
+        'util': ['utils::remove_many::<f64> (5 elements, two arbitrary indexes)'],
         'idx': ['IterableKind::read on an empty nested array (path of two indexes) and on a flat array (one index); Display of the array and alloc::fmt::format stubbed'],
         'arith': ['<i64/u64/f64/bool as ApplyOp>::{apply_binary_op, apply_unary_op}', 'checked_i64', 'checked_u64', 'checked_div', 'Primitive::{as_integer_cast, as_usize_cast}'],
     }[group]
